@@ -9,7 +9,7 @@ base=$(cat $src/.base); ref=/tmp/vf/.base-$base
 [ -d $ref ] || { mkdir -p $ref && git -C /verif archive $base | tar -x -C $ref; }
 echo "== changed relative to base $base:"
 diff -rq --exclude=bin --exclude=evidence --exclude=.git --exclude=.base $ref $src | sed 's/^/   /'
-other=$(diff -rq --exclude=bin --exclude=evidence --exclude=.git $ref/cmd $src/cmd | grep -v "/$lc[^/]*\.go" )
+other=$(diff -rq --exclude=bin --exclude=evidence --exclude=.git $ref/cmd $src/cmd | grep -v "/$lc[^/]*\.go" | grep -v ": $lc[^/]*\.go\$" )
 if [ -n "$other" ]; then echo "!! changes outside $lc*.go:"; echo "$other"; [ "${FORCE:-0}" = 1 ] || exit 1; fi
 cp $src/cmd/verifcheck/$lc*.go /verif/cmd/verifcheck/
 for f in $src/benign2/${p}R[0-9]*.patch $src/benign2/${p}R[0-9]*.notes.md; do [ -f "$f" ] && cp $f /verif/benign2/; done
